@@ -72,7 +72,7 @@ fn leaf_type(rng: &mut Rng) -> DataType {
             };
             DataType::Dictionary(Box::new(k), Box::new(v))
         }
-        29 => DataType::Interval(IntervalUnit::YearMonth),
+        29 => DataType::UInt32,
         30 => DataType::Int32,
         31 => DataType::Float32,
         32 => DataType::Int64,
